@@ -1,0 +1,106 @@
+// Copyright 2020-2025 Buf Technologies, Inc.
+//
+// Licensed under the Apache License, Version 2.0 (the "License");
+// you may not use this file except in compliance with the License.
+// You may obtain a copy of the License at
+//
+//      http://www.apache.org/licenses/LICENSE-2.0
+//
+// Unless required by applicable law or agreed to in writing, software
+// distributed under the License is distributed on an "AS IS" BASIS,
+// WITHOUT WARRANTIES OR CONDITIONS OF ANY KIND, either express or implied.
+// See the License for the specific language governing permissions and
+// limitations under the License.
+
+//go:build verif
+
+package bufmodule
+
+// Contracts for the gocv verifier (see /verif/DESIGN.md). Comment-only. (author ca-A2)
+//
+// C10: "files of non-target modules enter images only as imports": the target flag of a file info, and the read-bucket
+// views that restrict to target files / to file types (module_read_bucket.go, file_info.go, file_type.go).
+//
+//@ func newFileInfo(objectInfo, module, fileType, isTargetFile, getProtoFileImports, getProtoFilePackage) (r)
+//@   property C10
+//@   ensures r != nil && !old(allocated(r))
+//@   ensures as-given: r.module == module && r.fileType == fileType && r.isTargetFile == isTargetFile && r.ObjectInfo == objectInfo
+//@ func (f *fileInfo) IsTargetFile() (r)
+//@   property C10
+//@   ensures r == f.isTargetFile
+//@ func (f *fileInfo) Module() (r)
+//@   property C10
+//@   ensures r == f.module
+//@ func (f *fileInfo) FileType() (r)
+//@   property C10
+//@   ensures r == f.fileType
+//
+// A .proto path is a proto file wherever it lies; LICENSE only at the root; anything unclassified is an error.
+//@ func FileTypeForPath(path) (r, err)
+//@   property C10
+//@   ensures proto: normalpath.Ext(path) == ".proto" ==> r == FileTypeProto && err == nil
+//@   ensures license: normalpath.Ext(path) != ".proto" && path == "LICENSE" ==> r == FileTypeLicense && err == nil
+//@   ensures success-is-classified: err == nil ==> normalpath.Ext(path) == ".proto" || path == "LICENSE" || (path in docFilePathMap)
+//@   ensures proto-type-only-for-proto-paths: err == nil && r == FileTypeProto ==> normalpath.Ext(path) == ".proto"
+//
+// The file info of an object of a module: it belongs to that module, and its target flag is the module-level targeting
+// decision (getIsTargetFileForPathUncached, C11): in particular a file of a NON-TARGET module is never a target file.
+//@ func (b *moduleReadBucket) getFileInfoUncached(ctx, objectInfo) (r, err)
+//@   property C10
+//@   modifies heap, ghost.fail, ghost.wfail, ghost.sinkPaths, ghost.sinkBuckets
+//@   requires validRel(objectInfo.Path())
+//@   requires (forall k string :: k in b.targetPathMap ==> validRel(k)) && (forall k string :: k in b.targetExcludePathMap ==> validRel(k))
+//@   ensures file-of-this-module: err == nil ==> r != nil && typeOf(r) == typeId(*fileInfo) && cast(*fileInfo, r).module == b.module
+//@   ensures for-this-object: err == nil ==> cast(*fileInfo, r).ObjectInfo == objectInfo
+//@   ensures non-target-module-file-never-target: err == nil && !old(b.module).IsTarget() ==> !cast(*fileInfo, r).isTargetFile
+//@   ensures target-flag-is-the-decision: err == nil && old(b.protoFileTargetPath) == "" ==> (cast(*fileInfo, r).isTargetFile <==> (old(b.module).IsTarget() && i_moduleDecision(dom(old(b.targetPathMap)), len(old(b.targetPathMap)), dom(old(b.targetExcludePathMap)), objectInfo.Path())))
+//@   ensures unclassified-rejected: normalpath.Ext(objectInfo.Path()) != ".proto" && objectInfo.Path() != "LICENSE" && !(objectInfo.Path() in docFilePathMap) ==> err != nil
+//@   canary ensures err != nil
+//
+// ---- ModuleReadBucketWithOnlyTargetFiles ----
+//@ func newTargetedModuleReadBucket(delegate) (r)
+//@   property C10
+//@   ensures r != nil && !old(allocated(r)) && r.delegate == delegate
+// Stat through the target-only view: a file that exists in the delegate but is NOT a target file is reported as absent
+// (fs.ErrNotExist), a target file is returned as the delegate's own info, a delegate error is passed on.
+//@ func (t *targetedModuleReadBucket) StatFileInfo(ctx, path) (r, err)
+//@   property C10
+//@   ensures only-target-files-visible: err == nil ==> r == first(t.delegate.StatFileInfo(ctx, path)) && second(t.delegate.StatFileInfo(ctx, path)) == nil && r.IsTargetFile()
+//@   ensures non-target-file-is-absent: second(t.delegate.StatFileInfo(ctx, path)) == nil && !first(t.delegate.StatFileInfo(ctx, path)).IsTargetFile() ==> r == nil && err != nil && typeOf(err) == typeId(*fs.PathError) && cast(*fs.PathError, err).Err == fs.ErrNotExist && cast(*fs.PathError, err).Path == path
+//@   ensures target-file-found: second(t.delegate.StatFileInfo(ctx, path)) == nil && first(t.delegate.StatFileInfo(ctx, path)).IsTargetFile() ==> err == nil
+//@   ensures delegate-error-forwarded: second(t.delegate.StatFileInfo(ctx, path)) != nil ==> r == nil && err == second(t.delegate.StatFileInfo(ctx, path))
+//
+// ---- ModuleReadBucketWithOnlyFileTypes ----
+//@ func newFilteredModuleReadBucket(delegate, fileTypes) (r)
+//@   property C10
+//@   ensures r != nil && !old(allocated(r)) && r.delegate == delegate
+//@   ensures exactly-the-listed-types: r.fileTypeMap != nil && (forall ft FileType :: (ft in r.fileTypeMap) <==> (exists j int :: 0 <= j && j < len(fileTypes) && fileTypes[j] == ft))
+//@   ensures self-contained-needs-proto: r.shouldBeSelfContained <==> (delegate.ShouldBeSelfContained() && (exists j int :: 0 <= j && j < len(fileTypes) && fileTypes[j] == FileTypeProto))
+//@ func (f *filteredModuleReadBucket) StatFileInfo(ctx, path) (r, err)
+//@   property C10
+//@   ensures only-listed-types-visible: err == nil ==> r == first(f.delegate.StatFileInfo(ctx, path)) && second(f.delegate.StatFileInfo(ctx, path)) == nil && (r.FileType() in f.fileTypeMap)
+//@   ensures other-type-is-absent: second(f.delegate.StatFileInfo(ctx, path)) == nil && !(first(f.delegate.StatFileInfo(ctx, path)).FileType() in f.fileTypeMap) ==> r == nil && err != nil && typeOf(err) == typeId(*fs.PathError) && cast(*fs.PathError, err).Err == fs.ErrNotExist && cast(*fs.PathError, err).Path == path
+//@   ensures listed-type-found: second(f.delegate.StatFileInfo(ctx, path)) == nil && (first(f.delegate.StatFileInfo(ctx, path)).FileType() in f.fileTypeMap) ==> err == nil
+//@   ensures delegate-error-forwarded: second(f.delegate.StatFileInfo(ctx, path)) != nil ==> r == nil && err == second(f.delegate.StatFileInfo(ctx, path))
+// The walk through the type filter hands to fn only files of a listed type (every call through fn is recorded in
+// ghost.cbArg0); a file of another type is skipped without calling fn.
+//@ func (f *filteredModuleReadBucket) WalkFileInfos(ctx, fn, options) (err)
+//@   property C10
+//@   callback pure fn counted
+//@   modifies heap, ghost.cbCalls, ghost.cbArgs, ghost.cbArg0, ghost.cbArg1, ghost.cbArg2, ghost.cbArg3, ghost.fail, ghost.wfail
+//@   closure 0 ensures only-listed-types-handed-on: forall x ref :: x in ghost.cbArg0 && !(x in old(ghost.cbArg0)) ==> x == fileInfo && (fileInfo.FileType() in old(f.fileTypeMap))
+//@   closure 0 ensures other-types-skipped: !(fileInfo.FileType() in old(f.fileTypeMap)) ==> r == nil && ghost.cbArg0 == old(ghost.cbArg0)
+//@   closure 0 ensures listed-type-handed-on: (fileInfo.FileType() in old(f.fileTypeMap)) ==> r == fn(fileInfo) && (fileInfo in ghost.cbArg0)
+//
+// ---- documentation / licence buckets of a module directory (used when a workspace module is mapped) ----
+// Only the bucket that is passed in is read; the result is a bucket of its own (empty when there is no such file).
+//@ func GetDocStorageReadBucket(ctx, bucket) (r, err)
+//@   property C10
+//@   modifies ghost.fail, ghost.sinkPaths, ghost.sinkBuckets
+//@   ensures err == nil ==> r != nil
+//@   ensures only-this-bucket: forall b ref :: b in ghost.sinkBuckets && !(b in old(ghost.sinkBuckets)) ==> b == bucket
+//@ func GetLicenseStorageReadBucket(ctx, bucket) (r, err)
+//@   property C10
+//@   modifies ghost.fail, ghost.sinkPaths, ghost.sinkBuckets
+//@   ensures err == nil ==> r != nil
+//@   ensures only-this-bucket: forall b ref :: b in ghost.sinkBuckets && !(b in old(ghost.sinkBuckets)) ==> b == bucket
